@@ -5,6 +5,7 @@ package main
 
 import (
 	"fmt"
+	"go/constant"
 	"go/token"
 	"go/types"
 	"sort"
@@ -8066,5 +8067,108 @@ func ruleCodeResultMap(w *World, r *Report) {
 		r.ok("CODE-RESULT-MAP", key, w.Pos(fn.Pos()), "both map types are merged")
 	default:
 		r.violation("CODE-RESULT-MAP", key, w.Pos(fn.Pos()), "a core.Map that the script returns (the event it was given, say) is not merged into the bindings")
+	}
+}
+
+// CRON-KEY-INJ (C09, C11, C15): two jobs of two locations never share a key.
+func ruleCronKeyInj(prop string) ruleFn {
+	return func(w *World, r *Report) {
+		r.Rule("CRON-KEY-INJ", "CRON-KEY requires the key of a job in the shared in-memory cron to depend on the location and on the rule id.  It must also be *unique* for the pair: a key that only joins the two with a separator is the same for (\"a\", \"b\\x00c\") and (\"a\\x00b\", \"c\") — nothing keeps the separator out of location names or rule ids — and one location's rule replaces, or unschedules, the other's.  Therefore the key that cron.jobKey builds also depends on the length of one of the two parts (a length prefix), or on an escaping / quoting call applied to a part", 1)
+		fn := w.TryFunc("cron", "jobKey")
+		if fn == nil {
+			r.exempt("CRON-KEY-INJ", "fn=cron.jobKey", "", "cron.jobKey not found: shape not recognised, not decided")
+			return
+		}
+		key := "fn=" + fname(fn)
+		ok := false
+		n := 0
+		allInstrs(fn, func(in ssa.Instruction) {
+			ret, isRet := in.(*ssa.Return)
+			if !isRet || len(ret.Results) != 1 {
+				return
+			}
+			// the return that joins two parts (a string concatenation)
+			concat := dependsOn(ret.Results[0], func(v ssa.Value) bool {
+				b, isB := v.(*ssa.BinOp)
+				return isB && b.Op == token.ADD
+			})
+			if !concat {
+				return
+			}
+			n++
+			if dependsOn(ret.Results[0], func(v ssa.Value) bool {
+				c, isC := v.(*ssa.Call)
+				if !isC {
+					return false
+				}
+				if b, isB := c.Common().Value.(*ssa.Builtin); isB && b.Name() == "len" {
+					return true
+				}
+				if f := c.Common().StaticCallee(); f != nil {
+					switch f.Name() {
+					case "Quote", "QueryEscape", "PathEscape", "Sprintf", "Marshal":
+						return f.Name() != "Sprintf" || dependsOn(c, func(x ssa.Value) bool {
+							k, isK := x.(*ssa.Const)
+							return isK && k.Value != nil && k.Value.Kind() == constant.String && (strings.Contains(constant.StringVal(k.Value), "%q") || strings.Contains(constant.StringVal(k.Value), "%d"))
+						})
+					}
+				}
+				return false
+			}) {
+				ok = true
+			}
+		})
+		switch {
+		case n == 0:
+			r.exempt("CRON-KEY-INJ", key, w.Pos(fn.Pos()), "jobKey does not concatenate: shape not recognised, not decided")
+		case ok:
+			r.ok("CRON-KEY-INJ", key, w.Pos(fn.Pos()), "the key carries a length (or an escaped part): no two pairs share it")
+		default:
+			r.violation("CRON-KEY-INJ", key, w.Pos(fn.Pos()), "the key joins location and rule id with a separator only: (\"a\", \"b\\x00c\") and (\"a\\x00b\", \"c\") are one job")
+		}
+	}
+}
+
+// CROLT-TID-OWN (C16): the time-index entry that an update deletes is crolt's own bookkeeping.
+func ruleCroltTidOwn(w *World, r *Report) {
+	r.Rule("CROLT-TID-OWN", "crolt's update deletes the time-index entry that the job's TId field names before it writes the new one.  TId is a field of the job as it is decoded from a request (`json:\"tid\"`); a job created from a copy of what /get gave for another job names that other job's entry, and creating it silently takes the other job out of the time index: it stays in the job table and never fires again.  Therefore Cron.Add — the entry point for a *new* job — clears TId before anything that reaches update", 1)
+	fn := w.TryMethod("crolt", "Cron", "Add")
+	if fn == nil {
+		r.exempt("CROLT-TID-OWN", "fn=(*crolt.Cron).Add", "", "not found: not decided")
+		return
+	}
+	upd := w.TryMethod("crolt", "Cron", "update")
+	key := "fn=" + fname(fn)
+	var clear ssa.Instruction
+	allInstrs(fn, func(in ssa.Instruction) {
+		st, ok := in.(*ssa.Store)
+		if !ok {
+			return
+		}
+		if _, f, _, okf := fieldOf(st.Addr); okf && f == "TId" {
+			if k, isK := st.Val.(*ssa.Const); isK && k.Value != nil && k.Value.Kind() == constant.String && constant.StringVal(k.Value) == "" {
+				clear = in
+			}
+		}
+	})
+	var calls []ssa.Instruction
+	allInstrs(fn, func(in ssa.Instruction) {
+		if c := callOf(in); c != nil && upd != nil && c.StaticCallee() == upd {
+			calls = append(calls, in)
+		}
+	})
+	switch {
+	case len(calls) == 0:
+		r.exempt("CROLT-TID-OWN", key, w.Pos(fn.Pos()), "Add does not call update: shape not recognised, not decided")
+	case clear == nil:
+		r.violation("CROLT-TID-OWN", key, w.PosOf(calls[0]), "Add hands the job's TId on as the request gave it: update deletes the time-index entry it names, which can be another job's")
+	default:
+		for _, c := range calls {
+			if !instrDominates(clear, c) {
+				r.violation("CROLT-TID-OWN", key, w.PosOf(c), "TId is not cleared on every path to update")
+				return
+			}
+		}
+		r.ok("CROLT-TID-OWN", key, w.PosOf(clear), "a new job starts without a time-index entry")
 	}
 }
